@@ -6,6 +6,7 @@ package gen
 
 import (
 	"os"
+	"strings"
 
 	"pgregory.net/rapid"
 
@@ -21,7 +22,10 @@ type Config struct {
 	NoChown  bool
 	NoTemp   bool
 	NoChdir  bool
-	NoTmp    bool // "/tmp" is not an operand (it does not exist under Windows emulation)
+	// LinkCalls keeps Symlink, Readlink and EvalSymlinks among the calls although the file system has no
+	// symbolic links (Symlinks false): what a wrapper answers for a call its base refuses
+	LinkCalls bool
+	NoTmp     bool // "/tmp" is not an operand (it does not exist under Windows emulation)
 }
 
 // Inst is one generated step: usually one op, for open a short open/write/close group.
@@ -34,7 +38,7 @@ var (
 	Regrow   = []int64{2, 3, 5, 7, 9}
 	Ids      = []int{-1, 0, 1001, 1002}
 	Mtimes   = []int64{0, 1000000000, 2000000000}
-	Patterns = []string{"", "t", "t*", "t*.x", "*"}
+	Patterns = []string{"", "t", "t*", "t*.x", "*", "a*b*c", "**", "s/t*"}
 )
 
 // AllKinds lists the call templates of C01.
@@ -75,7 +79,7 @@ func (c Config) kinds() []string {
 	var r []string
 	for _, k := range ks {
 		switch {
-		case !c.Symlinks && (k == "Symlink" || k == "Readlink" || k == "EvalSymlinks"):
+		case !c.Symlinks && !c.LinkCalls && (k == "Symlink" || k == "Readlink" || k == "EvalSymlinks"):
 		case c.NoChown && (k == "Chown" || k == "Lchown"):
 		case c.NoTemp && (k == "CreateTemp" || k == "MkdirTemp"):
 		case c.NoChdir && (k == "Chdir" || k == "OpenChdir"):
@@ -116,7 +120,9 @@ func openGroup(p string, flag int, perm uint32, data string) Inst {
 
 func tempGroup(kind, dir, pattern, canon string) Inst {
 	i := Inst{{K: kind, P: dir, P2: pattern, H: 0}}
-	if kind == "CreateTemp" {
+	// a pattern with a separator is refused and avfs then returns a nil interface (package os a nil
+	// *os.File): there is no handle to use afterwards
+	if kind == "CreateTemp" && !strings.Contains(pattern, "/") {
 		i = append(i, fsx.Op{K: "FWrite", H: 0, Data: "tmp"}, fsx.Op{K: "FClose", H: 0})
 	}
 	return append(i, fsx.Op{K: "RenameTemp", P: canon})
@@ -331,6 +337,10 @@ func (c Config) StartTrees() map[string][]fsx.Op {
 		"modes":   {md(b + "/a"), wf(b+"/a/b", "AB"), {K: "Chmod", P: b + "/a", Perm: 0o2750}, {K: "Chmod", P: b + "/a/b", Perm: 0o4711}, wf(b+"/b", ""), {K: "Chdir", P: b + "/a"}},
 		"cwd":     {md(b + "/a"), md(b + "/a/a"), wf(b+"/a/b", "AB"), {K: "Chdir", P: b + "/a"}},
 		"content": {wf(b+"/a", "0123456789"), md(b + "/b"), wf(b+"/b/a", "hello"), {K: "Link", P: b + "/a", P2: b + "/c"}},
+	}
+	if !c.NoChown {
+		// a set-group-ID directory of another group: what is created inside takes the directory's group
+		t["sgid"] = []fsx.Op{md(b + "/a"), {K: "Chown", P: b + "/a", Uid: -1, Gid: 1002}, {K: "Chmod", P: b + "/a", Perm: 0o2775}, md(b + "/a/a"), wf(b+"/a/b", "AB"), wf(b+"/b", "B")}
 	}
 	if c.Symlinks {
 		sl := func(tg, p string) fsx.Op { return fsx.Op{K: "Symlink", P: tg, P2: p} }
